@@ -6,6 +6,7 @@ HAVE="$("$V/bin/hclcheck" -list)"
 one() {
   d="$1"; id="$(basename "$d")"; prop="${id%-*}"
   echo "$HAVE" | grep -qx "$prop" || { echo "$id  no-check"; return; }
+  if grep -q neutralised_by_fix "$d/meta.json" 2>/dev/null; then echo "$id  NEUTRALISED (no longer breaks the property after a fix: commit, see meta.json)"; return; fi
   out="$("$V/tools/mutest.sh" "$d/patch.diff" "$prop" 2>&1)"
   if echo "$out" | grep -q "PATCH DID NOT APPLY"; then echo "$id  PATCH-DOES-NOT-APPLY"; return; fi
   n=$(echo "$out" | grep -c "^VIOLATION")
